@@ -493,7 +493,11 @@ func (ps *protoSpec) specTestPrivateKey(priv *pt) {
 			continue
 		}
 		if c, ok := constOf(o.vals[0]); ok && c.Sign() == 0 {
-			ps.need("KEYTEST-ACCEPT", ps.validKey(o, d) && ps.prove(o, pOp("len", priv), token.LEQ, pC(32)), "0 is returned although 1 <= d <= n-2 (at most 32 bytes) does not follow from the path")
+			var fs []string
+			for _, f := range o.st.pfacts {
+				fs = append(fs, f.String())
+			}
+			ps.need("KEYTEST-ACCEPT", ps.validKey(o, d) && ps.prove(o, pOp("len", priv), token.LEQ, pC(32)), "0 is returned although 1 <= d <= n-2 (at most 32 bytes) does not follow from the path {%s}", trunc(strings.Join(fs[maxInt(0, len(fs)-4):], "; "), 200))
 			continue
 		}
 		nonzero := false
@@ -524,7 +528,11 @@ func (ps *protoSpec) specCheckOnCurve(x, y *pt) {
 			ps.seen["ONCURVE-REJECT"]++
 			continue
 		}
-		ps.need("ONCURVE-ACCEPT", ps.hasPred(o, "canonicalelem("+x.String()+")", true) && ps.hasPred(o, "canonicalelem("+y.String()+")", true) && ps.hasPred(o, "onCurve("+pVal(x).String()+","+pVal(y).String()+")", true), "true is returned without canonical decoding of both coordinates and a successful curve-equation check")
+		direct := ps.hasPred(o, "canonicalelem("+x.String()+")", true) && ps.hasPred(o, "canonicalelem("+y.String()+")", true) && ps.hasPred(o, "onCurve("+pVal(x).String()+","+pVal(y).String()+")", true)
+		// or through the point decoder: 04 || x || y with 32-byte x and y decodes only for canonical on-curve coordinates
+		// (the decoder's own contract: DECODE-STRICT / DECODE-CANONICAL / CURVE-EQUATION)
+		viaPoint := ps.hasPred(o, "decodes("+pOp("cat", pLit([]byte{4}), x, y).String()+")", true) && (ps.d.lenOf(o.st, x) == 32 || ps.prove(o, pOp("len", x), token.EQL, pC(32))) && (ps.d.lenOf(o.st, y) == 32 || ps.prove(o, pOp("len", y), token.EQL, pC(32)))
+		ps.need("ONCURVE-ACCEPT", direct || viaPoint, "true is returned without canonical decoding of both coordinates and a successful curve-equation check")
 	}
 	ps.flush(map[string]string{
 		"ONCURVE-ACCEPT": "true is returned only after both coordinates decoded canonically (< p, 32 bytes) and the curve equation held",
@@ -838,4 +846,11 @@ func sCongruent(inner, k, R, d *pt) bool {
 		}
 	}
 	return len(A.add(B.mul(polyOf(pAdd(d, pC(1)))), 1)) == 0
+}
+
+func maxInt(a, b int) int {
+	if a > b {
+		return a
+	}
+	return b
 }
